@@ -121,6 +121,7 @@ JudgeEncode(e) ==
   /\ ("pj" \in DOMAIN e => GRep(g, e.pj, P))
   /\ ("p" \in DOMAIN e => e.out.aff = e.p)
   /\ e.out.c = c /\ e.out.u = u
+  /\ e.out.c_from_affine = c /\ e.out.u_from_affine = u
   /\ Len(e.out.c) = EncLen(g, "c") /\ Len(e.out.u) = EncLen(g, "u")
   /\ e.out.sizes = <<EncLen(g, "c"), EncLen(g, "u")>>
   /\ LET d == TLCEval(Decode(g, "c", c, TRUE)) IN
